@@ -223,3 +223,15 @@ Lemma same_schedule_with_detection :
   let g := final true None two_incr interleaved in
   finished g = true /\ acked g = 1%Z /\ conflicts g = 1%nat /\ latest None (hist g) = Some 1%Z.
 Proof. vm_compute. repeat split; reflexivity. Qed.
+
+(** * The raft-backed deployment (F26): the fresh start timestamp hides the
+    competitor's commit from the prewrite check, whatever [detect] is. *)
+Lemma raft_lost_update :
+  let g := final_raft true None two_incr interleaved in
+  finished g = true /\ acked g = 2%Z /\ conflicts g = 0%nat /\ latest None (hist g) = Some 1%Z.
+Proof. vm_compute. repeat split; reflexivity. Qed.
+
+Lemma raft_setnx_twice :
+  let g := final_raft true None two_setnx interleaved in finished g = true /\ oks g = 2%nat.
+Proof. vm_compute. split; reflexivity. Qed.
+
